@@ -119,7 +119,7 @@ func H_C16_echo_scalar() {
 
 // H_C16_args: missing or unused arguments and $0 are errors, not panics.
 func H_C16_args() {
-	c := verif.Choose("case", 10)
+	c := verif.Choose("case", 17)
 	var out string
 	var err error
 	panicked := false
@@ -150,6 +150,10 @@ func H_C16_args() {
 			out, err = SanitizeSQL("SELECT $1, $3 FROM dual", "x", "y", "z")
 		case 9:
 			out, err = SanitizeSQL("SELECT $10 FROM dual", "a", "b")
+		default:
+			// placeholder numbers at and beyond the limits of the integer types
+			big := []string{"$9223372036854775807", "$9223372036854775808", "$9223372036854775809", "$18446744073709551615", "$18446744073709551617", "$99999999999999999999999", "$4294967297"}
+			out, err = SanitizeSQL("SELECT "+big[c-10]+" FROM dual", "a")
 		}
 	}()
 	verif.Assert(!panicked, "no-panic")
